@@ -30,8 +30,9 @@ def tokensOf (j : Json) : Except String (List Token) := do
   a.toList.mapM tokenOf
 
 def passes : List (String × (Text → Text)) :=
-  [("first_comments", suppressFirstComments), ("main_guard", suppressMainGuard),
-   ("sys_path", suppressSysPath), ("tabs", expandTabs), ("preprocess", preprocess),
+  [("first_comments", suppressFirstComments),
+   ("guard_line", fun t => if guardLine t then "1".toList else "0".toList),
+   ("sys_path", suppressSysPath), ("tabs", expandTabs),
    ("blank_lines", suppressBlankLines), ("useless_pass", suppressUselessPass),
    ("strip", strip), ("finish", finish),
    ("normalize", fun t => (normalizeComment t).1)]
@@ -49,6 +50,36 @@ def modelPass : Handler := fun j => do
         Json.arr #[txt r.1, Json.num (r.2 : Nat)]).toArray)])
     else
       pure (Json.mkObj [("r", Json.arr (ts.map fun t => txt (f t.toList)).toArray)])
+
+/-- The parser oracle as sent by the harness: `null`, or a list of `[lineno, end_lineno]`. -/
+def rangesOf (j : Json) : Except String (Option (List (Nat × Nat))) :=
+  match j with
+  | Json.null => pure none
+  | _ => do
+    let a ← j.getArr?
+    let rs ← a.toList.mapM fun x => do
+      let l ← intList x
+      match l with
+      | [p, q] => pure (p.toNat, q.toNat)
+      | _ => throw "range must be [lineno, end_lineno]"
+    pure (some rs)
+
+/-- `c13.model.guard`: `cases` = list of `{text, ifs, ifs1}`; answers `[suppress_main_guard(text) with
+oracle ifs, preprocess(text) with oracle ifs1 (asked about the text after suppress_first_comments),
+RangesOk 0 ifs, keepOutsideGuards spec]`. -/
+def modelGuard : Handler := fun j => do
+  let cs ← getArr j "cases"
+  let rs ← cs.toList.mapM fun c => do
+    let t := (← c.getObjValAs? String "text").toList
+    let ifs ← rangesOf (c.getObjValD "ifs")
+    let ifs1 ← rangesOf (c.getObjValD "ifs1")
+    let spec := match ifs with
+      | some rs => joinNl (Spec.keepOutsideGuards 0 (splitNl t) rs)
+      | none => t
+    pure (Json.mkObj [("guard", txt (suppressMainGuard ifs t)),
+      ("preprocess", txt (preprocess (fun _ => ifs1) t)),
+      ("first_comments", txt (suppressFirstComments t)), ("spec", txt spec)])
+  pure (Json.mkObj [("r", Json.arr rs.toArray)])
 
 def pieceJson : Piece → Json
   | .dropped => Json.arr #["dropped", ""]
@@ -104,7 +135,7 @@ def specText : Handler := fun j => do
       ("markerLines", Json.arr ((splitNl t).filter Spec.startsWithMarker |>.map txt).toArray)]).toArray)])
 
 def handlers : List (String × Handler) :=
-  [("c13.model.pass", modelPass), ("c13.model.loop", modelLoop),
+  [("c13.model.pass", modelPass), ("c13.model.loop", modelLoop), ("c13.model.guard", modelGuard),
    ("c13.spec.loop", specLoop), ("c13.spec.text", specText)]
 
 end Driver.C13
